@@ -26,6 +26,10 @@ type c10Case struct {
 	Strace     bool     `json:"strace"`
 	// Divergent: another thread loads a filter of its own (no thread-sync) first, so that the kernel refuses the synchronisation.
 	Divergent bool `json:"divergent"`
+	// PriorKind: which earlier load (Divergent): other-thread-different (default), other-thread-same (same policy:
+	// still a different filter object for the kernel), same-thread-same (the loader itself loaded the same policy
+	// without thread-sync before: the kernel accepts the later synchronisation).
+	PriorKind string `json:"prior_kind,omitempty"`
 	// EnosysFault: seccomp(2) fails with ENOSYS in the whole process (outer sandbox / old kernel).
 	EnosysFault bool `json:"enosys_fault"`
 }
@@ -41,9 +45,10 @@ func drawC10(t *rapid.T) c10Case {
 		SpawnAfter: rapid.IntRange(0, 3).Draw(t, "spawnAfter"),
 		Strace:     rapid.IntRange(0, 9).Draw(t, "strace") == 0,
 	}
-	switch rapid.IntRange(0, 7).Draw(t, "fault") {
-	case 0:
+	switch rapid.IntRange(0, 8).Draw(t, "fault") {
+	case 0, 8:
 		c.Divergent, c.Strace = true, false
+		c.PriorKind = []string{"other-thread-different", "other-thread-same", "same-thread-same"}[rapid.IntRange(0, 2).Draw(t, "priorKind")]
 	case 1:
 		c.EnosysFault, c.Strace = true, false
 	}
@@ -70,7 +75,11 @@ func drawC10(t *rapid.T) c10Case {
 			}
 		}
 		if s == "spawner" {
-			if spawners >= 2 || (spawners >= 1 && c.GOMAXPROCS == 1) {
+			// With a single P, goroutines that exit while locked to their thread (that is how threads are destroyed here)
+			// now and then stall the Go scheduler of the child for tens of seconds (all goroutines runnable, no M running
+			// them; seen in goroutine dumps of timed-out children). That is the harness's runtime, not the property:
+			// no thread spawner when GOMAXPROCS is 1.
+			if spawners >= 2 || c.GOMAXPROCS == 1 {
 				s = "read"
 			} else {
 				spawners++
@@ -106,8 +115,15 @@ func checkC10(raw json.RawMessage) (ev.Result, error) {
 	switch {
 	case c.Divergent:
 		dp := c10Policy()
-		dp.Groups[0].Names = []string{"getuid"}
-		fault = kjob.Step{Op: "load", Thread: 1, Filter: &kjob.FilterSpec{Policy: dp, NNP: true, Flag: 0, HostArch: true}}
+		th := 1
+		switch c.PriorKind {
+		case "other-thread-same":
+		case "same-thread-same":
+			th = 0
+		default:
+			dp.Groups[0].Names = []string{"getuid"}
+		}
+		fault = kjob.Step{Op: "load", Thread: th, Filter: &kjob.FilterSpec{Policy: dp, NNP: true, Flag: 0, HostArch: true}}
 	case c.EnosysFault:
 		fault = kjob.Step{Op: "outer-enosys"}
 	}
